@@ -80,8 +80,46 @@ class Proc:
         return self.tag is None and self.pc >= len(self.program)
 
     def has_ready(self) -> bool:
-        self.loop._move_due_timers()
+        # timers are blocking waits: they fire when the controller decides
+        # to wake the sleeper, not because another process moved the clock
         return bool(self.loop._ready)
+
+
+class TaskProc(Proc):
+    """A process that runs one coroutine on its own loop (no IMAP
+    connection): used for exploring the lock primitives directly."""
+
+    def __init__(self, pid: int, loop, task) -> None:
+        self.pid = pid
+        self.world = None
+        self.loop = loop
+        self.session = None
+        self.sem = threading.Semaphore(0)
+        self.status = 'idle'
+        self.at = None
+        self.thread = None
+        self.stop = False
+        self.error = None
+        self.program = []
+        self.pc = 0
+        self.tag = None
+        self.results = []
+        self._cur_resps = []
+        self.dirty = False
+        self.boundary = True
+        self.fs_calls = 0
+        self.task = task
+
+    def pull(self) -> None:
+        pass
+
+    @property
+    def in_flight(self) -> bool:
+        return not self.task.done()
+
+    @property
+    def finished(self) -> bool:
+        return self.task.done()
 
 
 class Point:
@@ -124,6 +162,11 @@ class Sched:
         self.main = threading.Semaphore(0)
         self.max_resumes = max_resumes
         self.active = False
+
+    def add_task(self, loop, task) -> TaskProc:
+        p = TaskProc(len(self.procs), loop, task)
+        self.procs.append(p)
+        return p
 
     def add(self, world, session, program) -> Proc:
         p = Proc(len(self.procs), world, session)
@@ -170,12 +213,17 @@ class Sched:
         self.main.release()
         p.sem.acquire()
 
+    def _done(self, op, ok) -> None:
+        # a mutating filesystem call of the running process has completed
+        p = getattr(_tl, 'proc', None)
+        if p is None or not self.active or not ok:
+            return
+        for q in self.procs:
+            if q is not p:
+                q.dirty = True
+
     def _resume(self, p: Proc, ex: Execution) -> None:
         what = p.at[:2] if p.status == 'fs' else ('run',)
-        if p.status == 'fs' and p.at[2]:
-            for q in self.procs:
-                if q is not p:
-                    q.dirty = True
         ex.trace.append((p.pid,) + tuple(what))
         ex.resumes += 1
         p.status = 'running'
@@ -191,6 +239,7 @@ class Sched:
         prefix = list(prefix)
         self.active = True
         self.jail.on_sched = self._point
+        self.jail.on_done = self._done
         for p in self.procs:
             p.thread = threading.Thread(target=self._body, args=(p,),
                                         daemon=True)
@@ -269,6 +318,7 @@ class Sched:
         finally:
             self.active = False
             self.jail.on_sched = None
+            self.jail.on_done = None
             self._shutdown()
         return ex
 
